@@ -99,7 +99,7 @@ def o_apply(inp):
     field_obj = entry.fields[1]
     cur = lib
     for kind in inp["mws"]:
-        cur = libgen.maybe_preuse(MW[kind](allow_inplace_modification=inp["inplace"]), (inp["v"], inp["mws"]), same=cur).transform(cur)
+        cur = libgen.maybe_preuse(libgen.construct(MW[kind], {"allow_inplace_modification": inp["inplace"]}, (repr(inp["v"]), inp["mws"])), (inp["v"], inp["mws"]), same=cur).transform(cur)
     if not isinstance(cur, Library) or len(cur.blocks) != len(blocks):
         return (("shape", f"{type(cur).__name__} with {len(getattr(cur, 'blocks', []))} blocks", f"library of {len(blocks)} blocks"), True, ())
     out_entry, out_other = [b for b in cur.blocks if isinstance(b, Entry)][:2] if len(blocks) > 2 else cur.blocks
